@@ -197,8 +197,12 @@ func (n *networkAddressTranslator) translateOutbound(from Chunk) (Chunk, error) 
 			mapp := n.findOutboundMapping(oKey)
 			if mapp == nil {
 				// Create a new mapping
-				mappedPort := 0xC000 + n.udpPortCounter
-				n.udpPortCounter++
+				mappedPort, ok := n.allocateUDPPort()
+				if !ok {
+					n.log.Debugf("[%s] drop outbound chunk %s: no free mapped port", n.name, from.String())
+
+					return nil, nil // nolint:nilnil
+				}
 
 				mapp = &mapping{
 					proto:   from.SourceAddr().Network(),
@@ -298,6 +302,28 @@ func (n *networkAddressTranslator) translateInbound(from Chunk) (Chunk, error) {
 	}
 
 	return nil, errNonUDPTranslationNotSupported
+}
+
+// allocateUDPPort returns the next port of the dynamic range (0xC000-0xFFFF)
+// that no live mapping holds, wrapping around at the end of the range.
+// caller must hold the mutex.
+func (n *networkAddressTranslator) allocateUDPPort() (int, bool) {
+	const base, size = 0xC000, 0x10000 - 0xC000
+	now := time.Now()
+	for i := 0; i < size; i++ {
+		port := base + n.udpPortCounter
+		n.udpPortCounter = (n.udpPortCounter + 1) % size
+		if m, ok := n.inboundMap[fmt.Sprintf("udp:%s:%d", n.mappedIPs[0].String(), port)]; ok {
+			if !now.After(m.expires) {
+				continue // still held by a live mapping
+			}
+			n.removeMapping(m)
+		}
+
+		return port, true
+	}
+
+	return 0, false
 }
 
 // caller must hold the mutex.
